@@ -1154,6 +1154,11 @@ EDIT_SNIPPETS = REREAD_SNIPPETS + [
     "type I interface {\n\tM()\n\tStringer }\ntype J interface {\n\tint }",
     "type S[P *E | ~G] struct{ p P }\ntype T[P (E) | ~G, Q *E | []byte] int\ntype U[P *E,] int\ntype V [N * M]int",
     "var c = chan (<-chan int)(nil)\nvar d []chan (<-chan int)\nvar e chan<- (chan<- int)\nvar f = <-(<-chan int)(c)",
+    # labels directly before a closing brace (the one place parse_stmt meets `}`), in every kind of block
+    "func f() {\n\tgoto done\n\tfor {\n\t\tbreak\n\tinner:\n\t}\n\tswitch x {\n\tcase 1:\n\t\tfallthrough\n\tdefault:\n\tend:\n\t}\n\tselect {\n\tcase <-c:\n\tlast:\n\t}\n\tgo func() {\n\tl:\n\t}()\ndone:\n}",
+    "func f() {\n\tgoto done\ndone:\n}", "func f() {\n\tfor {\n\tinner:\n\t}\n}", "func f() {\n\tswitch x {\n\tdefault:\n\tend:\n\t}\n}",
+    "func f() {\n\tselect {\n\tcase <-c:\n\tlast:\n\t}\n}", "var g = func() {\nl:\n}",
+    "import (\n\t\"a\"\n\tb \"c\" )\nimport . \"d\"\nimport ()\nvar (\n\ta = 1\n\tb, c int )\nconst (\n\td = iota\n\te )\ntype (\n\tA = B\n\tC[T any] struct{} )",
 ]
 
 
